@@ -750,6 +750,14 @@ func runC06(c *core.Ctx, ck *Check) {
 	w.Merge()
 	c.Note("distinct_error_templates_per_entry_point", perEntry)
 	c.Note("exhaustive_subspace", fmt.Sprintf("all strings of length <= %d over %q through every entry point", c.Scale(4, 5), c06Alphabet))
+	if on("volume") {
+		all := eco.All()
+		c.Parallel(len(all), func(w *core.W, i int) {
+			for _, v := range c06Volume(c, w, all[i]) {
+				w.Report(v)
+			}
+		})
+	}
 	if on("cli") {
 		runC06CLI(c)
 	}
